@@ -31,6 +31,14 @@ inductive DInsn where
   | jsr (target : Int)
   | tableswitch (dflt : Int) (low high : Int) (targets : List Int)
   | lookupswitch (dflt : Int) (pairs : List (Int × Int))
+  /-- `getstatic putstatic getfield putfield invokevirtual invokespecial invokestatic new anewarray checkcast
+  instanceof`: opcode, `indexbyte1 indexbyte2` -/
+  | cp (op idx : Nat)
+  /-- `invokeinterface indexbyte1 indexbyte2 count 0` -/
+  | invokeinterface (idx count : Nat)
+  | newarray (atype : Nat)
+  /-- `multianewarray indexbyte1 indexbyte2 dimensions` -/
+  | multianewarray (idx dims : Nat)
   deriving DecidableEq, Repr
 
 /-- opcodes without operands (JVMS §6.5 / §7): constants, array loads and stores, stack, arithmetic, conversions,
@@ -42,6 +50,10 @@ def isSimple (op : Nat) : Bool :=
 /-- conditional branch opcodes: `if<cond>` 0x99–0x9e, `if_icmp<cond>` 0x9f–0xa4, `if_acmp<cond>` 0xa5–0xa6,
 `ifnull` 0xc6, `ifnonnull` 0xc7 -/
 def isIf (op : Nat) : Bool := (0x99 ≤ op && op ≤ 0xa6) || op == 0xc6 || op == 0xc7
+
+/-- opcodes followed by exactly one two-byte constant-pool index: field access 0xb2–0xb5, `invokevirtual`
+`invokespecial` `invokestatic` 0xb6–0xb8, `new` 0xbb, `anewarray` 0xbd, `checkcast` 0xc0, `instanceof` 0xc1 -/
+def isCp (op : Nat) : Bool := (0xb2 ≤ op && op ≤ 0xb8) || op == 0xbb || op == 0xbd || op == 0xc0 || op == 0xc1
 
 /-- the conditional branch that succeeds exactly when `op` does not (eq/ne, lt/ge, gt/le, null/nonnull) -/
 def negIf (op : Nat) : Nat :=
@@ -181,6 +193,23 @@ def decodeOne (pc : Nat) (bs : Bytes) : Option (DInsn × Nat) :=
             some (.lookupswitch ((pc : Int) + s32 d1 d2 d3 d4) ps, 1 + switchPad pc + 8 + 8 * ps.length)
           | none => none
         else none
+      | _ => none
+    else if isCp op then
+      match rest with
+      | a :: b :: _ => some (.cp op (a * 256 + b), 3)
+      | _ => none
+    else if op == 0xb9 then
+      -- the fourth operand byte must always be zero
+      match rest with
+      | a :: b :: c :: z :: _ => if z == 0 then some (.invokeinterface (a * 256 + b) c, 5) else none
+      | _ => none
+    else if op == 0xbc then
+      match rest with
+      | t :: _ => some (.newarray t, 2)
+      | _ => none
+    else if op == 0xc5 then
+      match rest with
+      | a :: b :: d :: _ => some (.multianewarray (a * 256 + b) d, 4)
       | _ => none
     else none
 
